@@ -162,6 +162,10 @@ def pairing(rc):
         f = repo.func(SP, q)
         stacks = [c for c in repo.calls_in(f) if call_name(c) == "vstack"]
         maps = [c for c in repo.calls_in(f) if call_name(c) == "pre_compute_reduce_maps"]
+        if stacks and not maps:
+            rc.fail(f, f.node, f"{q} no longer builds the reduce maps itself for the parent configurations it just stacked (the maps must be computed for this call's "
+                    f"evidence order and state combinations)", construct=f"{q} reduce maps not built per call")
+            continue
         if not stacks or not maps:
             raise AnalysisError(f"{q}: stacking / reduce-map sites not found")
         comp = stacks[0].args[0]
@@ -280,6 +284,28 @@ def weights(rc):
         topo = [n for n in walk_no_nested(g.node) if isinstance(n, ast.Assign) and "self.topological_order" in norm(n.value)]
         if not topo:
             rc.fail(g, g.node, "nodes must be sampled in topological order (parents first)", construct=f"{q} order")
+    # Gibbs kernels: the configuration tuple enumerates `other_vars`; it must be zipped with that very list
+    for q in ("GibbsSampling._get_kernel_from_bayesian_model", "GibbsSampling._get_kernel_from_markov_model"):
+        k = repo.func(SP, q)
+        d = {n.targets[0].id: n.value for n in walk_no_nested(k.node) if isinstance(n, ast.Assign) and isinstance(n.targets[0], ast.Name)}
+        prods = [n for n in walk_no_nested(k.node) if isinstance(n, ast.For) and isinstance(n.iter, ast.Call) and call_name(n.iter) == "product"]
+        for lp in prods:
+            tupv = dotted(lp.target)
+            gen = lp.iter.args[0].value if lp.iter.args and isinstance(lp.iter.args[0], ast.Starred) else None
+            cards = dotted(gen.generators[0].iter) if isinstance(gen, (ast.ListComp, ast.GeneratorExp)) else None
+            base = None
+            cd = d.get(cards)
+            if isinstance(cd, ast.ListComp):
+                base = dotted(cd.generators[0].iter)
+            zips = [c for c in ast.walk(lp) if isinstance(c, ast.Call) and call_name(c) == "zip" and any(dotted(a) == tupv for a in c.args)]
+            for z in zips:
+                other = [dotted(a) for a in z.args if dotted(a) != tupv]
+                rc.ob(f"{q}: configuration tuple `{tupv}` enumerates `{base}`; zipped with {other}")
+                if base is None or other != [base]:
+                    rc.fail(k, z, f"{q}: the configuration tuple enumerates the states of `{base}` position by position but is zipped with `{other}`: "
+                            f"variables are reduced at other variables' states", construct=f"{q} zip misaligned")
+            if not zips:
+                rc.fail(k, lp, f"{q}: cannot find where the configuration tuple is paired with the variables", construct=f"{q} zip")
     rs = repo.module(SB).functions["_return_samples"]
     if "samples[var].map(state_names_map[var])" not in norm(rs.node, 5000):
         rc.fail(rs, rs.node, "each column is mapped through its own variable's number->name table", construct="_return_samples")
@@ -338,6 +364,9 @@ MUTANTS = [
     dict(kind="break", name="gibbs-kernel-unnormalised", file=SP, expect="C07.weights",
          old="                kernel[tup] = reduced_factor.values / sum(reduced_factor.values)\n            self.transition_models[var] = kernel\n\n    def _get_kernel_from_markov_model",
          new="                kernel[tup] = reduced_factor.values\n            self.transition_models[var] = kernel\n\n    def _get_kernel_from_markov_model"),
+    dict(kind="break", name="gibbs-zip-with-blanket-only", file=SP, expect="C07.weights",
+         old="            for tup in itertools.product(*[range(card) for card in other_cards]):\n                states = [State(v, s) for v, s in zip(other_vars, tup) if v in scope]",
+         new="            blanket_vars = [v for v in other_vars if v in scope]\n            for tup in itertools.product(*[range(card) for card in other_cards]):\n                states = [State(v, s) for v, s in zip(blanket_vars, tup)]"),
     dict(kind="twin", name="forward-drop-columns-kw", file=SP,
          old="        samples_df = _return_samples(sampled, self.state_names_map)\n        if not include_latents:\n            samples_df.drop(self.model.latents, axis=1, inplace=True)\n        return samples_df\n\n    def rejection_sample",
          new="        samples_df = _return_samples(sampled, self.state_names_map)\n        if include_latents:\n            return samples_df\n        samples_df.drop(self.model.latents, axis=1, inplace=True)\n        return samples_df\n\n    def rejection_sample"),
